@@ -786,10 +786,78 @@ def r_einsum_spec(c):
             "the generated program returns the transposed result")
 
 
+def r_transpose_axes(c):
+    """the axes= the emitter writes for an AxisPermutation are the node's
+    axis_permutation as it stands: numpy.transpose(a, axes) makes result axis k the
+    operand's axis axes[k], which is the node's own convention (AxisPermutation.shape).
+    The inverse permutation is right for every 2-D transpose and every swap of two
+    axes.  Decided by the role inference of R02-DIRECTION: positions of the emitted
+    list number result axes, its entries operand axes."""
+    m = c.model
+    from pta.rules.c02 import _IN, _OUT, _perm_roles
+    fd0 = m.resolve_method(NL + ".NumpyCodegenMapper", "map_axis_permutation")[1]
+    fd = m.expand_locals(m.inlined(fd0), only="aliases")
+    for n in ast.walk(fd):
+        for ch in ast.iter_child_nodes(n):
+            ch._parent = n
+    ep = fd.args.args[1].arg
+    P = f"{ep}.axis_permutation"
+    gens_of, env_of, typed = _perm_roles(fd, P)
+    kws = [k for x in ast.walk(fd) if isinstance(x, ast.Call) for k in x.keywords
+           if k.arg == "arg" and isinstance(k.value, ast.Constant) and k.value.value == "axes"]
+    if not kws:
+        raise AnalysisError("anchor vanished: ast.keyword(arg='axes', ...) in "
+                            "NumpyCodegenMapper.map_axis_permutation")
+    n_sites = 0
+    for x in ast.walk(fd):
+        if not (isinstance(x, ast.Call) and any(k in kws for k in x.keywords)):
+            continue
+        val = next(k.value for k in x.keywords if k.arg == "value")
+        comps = [y for y in ast.walk(val) if isinstance(y, (ast.ListComp, ast.GeneratorExp))]
+        where = m.loc(m.module_of(fd0), fd0)
+        if not comps:
+            # map(_constant, P) / the permutation handed on whole
+            ok = any(ast.unparse(y) == P for y in ast.walk(val))
+            if not ok:
+                raise AnalysisError("R14-ARGS: cannot tell how the emitted axes= are computed "
+                                    f"(`{ast.unparse(val)[:80]}`)")
+            c.ok("R14-ARGS", "NumpyCodegenMapper.map_axis_permutation",
+                 "axes-are-the-node's-permutation", where)
+            n_sites += 1
+            continue
+        for cp in comps:
+            e = cp.elt
+            # through the wrappers that make a constant node of it:
+            # ast.Constant(cast(T, y)), _constant(y), int(y)
+            y = e
+            while isinstance(y, ast.Call) and y.args and not (
+                    isinstance(y.func, ast.Attribute) and y.func.attr == "index"
+                    and ast.unparse(y.func.value) == P):
+                y = y.args[-1]
+            env, free, impl = env_of(gens_of(cp.elt))
+            if impl is None:
+                raise AnalysisError("R14-ARGS: the emitted axes= are not computed from "
+                                    f"{P} in a way the role inference knows")
+            rs = typed([impl, y], env, free)
+            if rs is None or None in rs:
+                raise AnalysisError(f"R14-ARGS: cannot tell which axes `{ast.unparse(cp)[:80]}` "
+                                    "numbers (result or operand)")
+            n_sites += 1
+            c.check(tuple(rs) == (_OUT, _IN), "R14-ARGS",
+                    "NumpyCodegenMapper.map_axis_permutation",
+                    "axes-are-the-node's-permutation", where,
+                    f"`{ast.unparse(cp)[:90]}` writes, at positions numbered by {rs[0]}, "
+                    f"entries numbered by {rs[1]}: numpy.transpose(a, axes) wants result "
+                    "positions holding operand axes (the node's axis_permutation itself); "
+                    "the inverse permutation is emitted, which is only right for involutions")
+    if not n_sites:
+        raise AnalysisError("anchor vanished: emitted axes= of transpose")
+
+
 SPEC = Spec(
     prop="C14",
     rules=[r_namespace, r_tables, r_consume, r_args, r_unsupported, r_operator_inventory, r_intclass, r_creator_dtype,
-           r_scalar_constants, r_einsum_spec],
+           r_scalar_constants, r_einsum_spec, r_transpose_axes],
     floors={"R14-NAMESPACE": 31, "R14-TABLES": 48, "R14-CONSUME": 20, "R14-ARGS": 9,
             "R14-UNSUPPORTED": 5},
     explanation=(
@@ -809,7 +877,7 @@ SPEC = Spec(
         "list, kw_defaults and expected_arguments come from one collection; only "
         "keyword-only parameters. R14-UNSUPPORTED: unsupported kinds raise. "
         "R14-CONSUME also: every array-creating emission (zeros, ones, full, *_like) spells out dtype=expr.dtype unless guarded by a test for the default float dtype. R14-UNSUPPORTED also: integer tests on shape components and indices use INT_CLASSES. "
-        "R14-TABLES also (case table of the scalar-operand emitter): a scalar reaches ast.Constant, i.e. its repr, only where it is known to be finite and not negative; non-finite scalars are built from their string form, negative ones get an explicit unary minus (the one use of a Python operator outside the table that is admitted: its operand is a constant). R14-ARGS also: the einsum string emitted for an Einsum lists its output letters by output axis number (EinsumElementwiseAxis(i) for i in range(ndim)), never in the order the table of letters was filled."),
+        "R14-TABLES also (case table of the scalar-operand emitter): a scalar reaches ast.Constant, i.e. its repr, only where it is known to be finite and not negative; non-finite scalars are built from their string form, negative ones get an explicit unary minus (the one use of a Python operator outside the table that is admitted: its operand is a constant). R14-ARGS also: the einsum string emitted for an Einsum lists its output letters by output axis number (EinsumElementwiseAxis(i) for i in range(ndim)), never in the order the table of letters was filled; the axes= emitted for an AxisPermutation are the node's permutation, not its inverse (role inference shared with R02-DIRECTION)."),
     not_decided=(
         "That the generated function returns NumPy's values (needs running it); "
         "slice re-synthesis correctness; dtype preservation through dropped casts; "
